@@ -31,6 +31,8 @@ def arg_catalog(k):
         # primitive types are recorded as typed values also when they are spelled with a path, behind a reference, or generic
         "qual_string": dict(decl="t: std::string::String", setup="let t = String::from(\"q-val\");", pass_="t", fields={"t": "q-val"}, m={"t": "str"}),
         "wrapping":  dict(decl="w: std::num::Wrapping<u8>", setup="let w = std::num::Wrapping(7u8);", pass_="w", fields={"w": "7"}, m={"w": "u64"}),
+        # a parameter that merely happens to be called `_self` (not the async-trait helper shape): recorded under its own name
+        "uself":     dict(decl="_self: Tok", setup="let us = Tok(19);", pass_="us", fields={"_self": "Tok(19)"}, m={"_self": "debug"}),
         "nz_ref":    dict(decl="z: &std::num::NonZeroU32", setup="let z = std::num::NonZeroU32::new(9).unwrap();", pass_="&z", fields={"z": "9"}, m={"z": "u64"}),
     }
 # the visitor method each argument field must arrive through ("any": not pinned down by the documentation)
@@ -56,6 +58,8 @@ class Gen:
             boxstyle, kind = kind, "boxed"
         if boxstyle == "boxed_fn":
             argkeys = [a for a in argkeys if a in ("tok_val", "mut_val", "flag", "qual_string", "wrapping")]
+        if recv or boxstyle == "boxed_fn":
+            argkeys = [a for a in argkeys if a != "uself"]
         if kind == "boxed":
             argkeys = [a for a in argkeys if a not in ("impl_tr", "generic", "tok_mut", "str_ref", "tok_ref", "nz_ref")]
         if kind != "sync":
